@@ -167,25 +167,7 @@ def check(ctx):
 
     # ------------------------------------------------------------------ R3 dispatch exhaustive + vocabulary known
     r3 = ctx.rule('R3', 'every valid annotation has a validator and is known to the option parser', floor=40)
-    all_ann = py.fold_name(m, 'ALL_ANNOTATIONS')
-    list_ann = py.fold_name(m, 'LIST_ANNOTATIONS')
-    dict_ann = py.fold_name(m, 'DICT_ANNOTATIONS')
-    base_methods = py.methods('annotationparser', 'GtkDocAnnotatable')
-    for cname in ('GtkDocParameter', 'GtkDocTag', 'GtkDocCommentBlock'):
-        mm, val = py.class_attr('annotationparser', cname, 'valid_annotations')
-        names = py.fold(val, mm)
-        methods = py.methods('annotationparser', cname)
-        for a in names:
-            meth = '_do_validate_' + a.replace('-', '_')
-            fd = methods.get(meth)
-            r3.check(fd is not None and len(fd.args.args) == 4, '%s validator for "%s"' % (cname, a), rel,
-                     fd.lineno if fd is not None else val.lineno,
-                     'valid annotation "%s" of %s has no %s(position, ann_name, options): validate() would raise AttributeError' % (a, cname, meth))
-            r3.check(a in all_ann and (a in list_ann or a in dict_ann), 'annotation "%s" known to the option parser' % a, rel, val.lineno,
-                     'annotation "%s" is valid on %s but missing from ALL_ANNOTATIONS (GI_ANNS): its options are parsed by '
-                     '_parse_annotation_options_unknown, which yields None for "(%s)" without options, and the validator '
-                     'then raises TypeError (len(None)) — the whole comment block is lost with an "unrecoverable parse error"'
-                     % (a, cname, a))
+    validator_rule(ctx, r3)
     # the dispatch expression itself
     val_f = py.func('annotationparser', 'GtkDocAnnotatable.validate')
     ga = [c for c in P.calls_in(val_f) if P.call_name(c) == 'getattr']
@@ -632,3 +614,30 @@ def bounds_rule(ctx, rule, modname, cname, rel):
                        '(the sequence has at least %d element(s) and no test on this path requires more)' % (e.target[-90:], k, bad, lo),
                        detail={'min': lo, 'max': hi, 'index': k})
     return n_known
+
+
+def validator_rule(ctx, r3):
+    """every annotation a documented element accepts has a validator method and is known to the option parser (shared with C10: a block
+    that follows the grammar is parsed, not dropped by an AttributeError)"""
+    py = ctx.py
+    m = py.mod('annotationparser')
+    rel = m.rel
+    all_ann = py.fold_name(m, 'ALL_ANNOTATIONS')
+    list_ann = py.fold_name(m, 'LIST_ANNOTATIONS')
+    dict_ann = py.fold_name(m, 'DICT_ANNOTATIONS')
+    base_methods = py.methods('annotationparser', 'GtkDocAnnotatable')
+    for cname in ('GtkDocParameter', 'GtkDocTag', 'GtkDocCommentBlock'):
+        mm, val = py.class_attr('annotationparser', cname, 'valid_annotations')
+        names = py.fold(val, mm)
+        methods = py.methods('annotationparser', cname)
+        for a in names:
+            meth = '_do_validate_' + a.replace('-', '_')
+            fd = methods.get(meth)
+            r3.check(fd is not None and len(fd.args.args) == 4, '%s validator for "%s"' % (cname, a), rel,
+                     fd.lineno if fd is not None else val.lineno,
+                     'valid annotation "%s" of %s has no %s(position, ann_name, options): validate() would raise AttributeError' % (a, cname, meth))
+            r3.check(a in all_ann and (a in list_ann or a in dict_ann), 'annotation "%s" known to the option parser' % a, rel, val.lineno,
+                     'annotation "%s" is valid on %s but missing from ALL_ANNOTATIONS (GI_ANNS): its options are parsed by '
+                     '_parse_annotation_options_unknown, which yields None for "(%s)" without options, and the validator '
+                     'then raises TypeError (len(None)) — the whole comment block is lost with an "unrecoverable parse error"'
+                     % (a, cname, a))
